@@ -61,6 +61,9 @@ pub fn must_reject(s: &str, how: &str, near_miss: bool, obs: &mut Obs) -> Res {
 fn random_token_mutants(src: &mut Src, obs: &mut Obs) -> Res {
     let q = gen_valid(src);
     let s = render_spelled(src, &q);
+    // the valid neighbour goes through the library first (same thread): rejection of the near miss
+    // must not depend on what was parsed before
+    let _ = libx::parse(&s);
     let mut toks = tokenize(&s);
     let n = 1 + src.weighted(&[70, 22, 8]);
     let mut how = "";
@@ -73,6 +76,7 @@ fn random_token_mutants(src: &mut Src, obs: &mut Obs) -> Res {
 fn random_char_mutants(src: &mut Src, obs: &mut Obs) -> Res {
     let q = gen_valid(src);
     let s = render_spelled(src, &q);
+    let _ = libx::parse(&s);
     let m = mutate_chars(src, &s);
     must_reject(&m, "char-edit", true, obs)
 }
@@ -183,6 +187,33 @@ fn random_illtyped(src: &mut Src, obs: &mut Obs) -> Res {
     must_reject(&s, how, true, obs)
 }
 
+/// a valid query is parsed and evaluated, then variants that differ only in forbidden blank space
+/// (leading, trailing, after `.` / `..`, before `(`) are submitted on the same thread
+fn random_padded_after_valid(src: &mut Src, obs: &mut Obs) -> Res {
+    let q = gen_valid(src);
+    let s = render_spelled(src, &q);
+    let d = serde_json::json!({"a": [1, {"b": 2}]});
+    let _ = libx::parse(&s);
+    let _ = libx::query_paths(&d, &s);
+    let b = |src: &mut Src| -> String {
+        let n = 1 + src.below(2);
+        (0..n).map(|_| *src.pick(&[' ', '\t', '\n', '\r'])).collect()
+    };
+    let variant = match src.below(4) {
+        0 => format!("{}{}", b(src), s),
+        1 => format!("{}{}", s, b(src)),
+        2 => format!("{}{}{}", b(src), s, b(src)),
+        _ => {
+            // a blank after the first `.` that starts a shorthand name
+            match s.find('.') {
+                Some(i) if s[i + 1..].chars().next().map_or(false, |c| c != '.' && c != '[') => format!("{}{}{}", &s[..i + 1], b(src), &s[i + 1..]),
+                _ => format!("{}{}", s, b(src)),
+            }
+        }
+    };
+    must_reject(&variant, "padded-after-valid", true, obs)
+}
+
 fn random_soup(src: &mut Src, obs: &mut Obs) -> Res {
     if src.bool() {
         let s = token_soup(src);
@@ -281,6 +312,7 @@ pub fn prop() -> Prop {
             Sub { name: "random-token-mutants", kind: Kind::Random { f: random_token_mutants, quick: 240_000, thorough: 4_800_000, len: 600 } },
             Sub { name: "random-char-mutants", kind: Kind::Random { f: random_char_mutants, quick: 160_000, thorough: 3_200_000, len: 600 } },
             Sub { name: "random-illtyped", kind: Kind::Random { f: random_illtyped, quick: 120_000, thorough: 2_400_000, len: 500 } },
+            Sub { name: "random-padded-after-valid", kind: Kind::Random { f: random_padded_after_valid, quick: 80_000, thorough: 1_600_000, len: 600 } },
             Sub { name: "random-soup", kind: Kind::Random { f: random_soup, quick: 80_000, thorough: 1_600_000, len: 64 } },
         ],
         direct: Some(direct),
